@@ -139,8 +139,9 @@ def _IndentOnly(got, exp):
           re.sub(r'\n +', '\n', got) == re.sub(r'\n +', '\n', exp))
 
 
-def _StringSignatures(rec, verdict):
-  """-> list of (signature, human text)."""
+def _StringSignatures(rec, verdict, unit_bad=frozenset()):
+  """-> list of (signature, human text).  unit_bad: (string, dialect) pairs
+  whose emitted literal TLC rejected at the unit level in the same run."""
   s = rec['s'] if rec['k'] == 'unit' else rec['_key']
   out = []
   if rec['k'] == 'unit':
@@ -163,17 +164,17 @@ def _StringSignatures(rec, verdict):
   if rec['k'] == 'sql':
     sig['d'] = rec['d']
     sig['backslash'] = '\\' in s
-    if why == 'shape-decodes-to-other-string':
-      try:
-        emitted = strlit.EmitLiteral(rec['d'], s)
-      except Exception:  # pylint: disable=broad-except
-        emitted = ''
-      sig['raw_newline_in_literal'] = '\n' in emitted
-      # The statement is the reference statement with the emitted literal in
-      # place of the marker, up to blanks inserted after newlines.
-      ref = rec['ref']
-      want = ref[:rec['at'] - 1] + emitted + ref[rec['at'] - 1 + rec['len']:]
-      sig['indent_only'] = _IndentOnly(rec['sql'], want)
+    sig['unit_literal_bad'] = (s, rec['d']) in unit_bad
+    try:
+      emitted = strlit.EmitLiteral(rec['d'], s)
+    except Exception:  # pylint: disable=broad-except
+      emitted = ''
+    sig['raw_newline_in_literal'] = '\n' in emitted
+    # The statement is the reference statement with the emitted literal in
+    # place of the marker, up to blanks inserted after newlines.
+    ref = rec['ref']
+    want = ref[:rec['at'] - 1] + emitted + ref[rec['at'] - 1 + rec['len']:]
+    sig['indent_only'] = _IndentOnly(rec['sql'], want)
   text = '%s %s/%s/%s: %s; s=%r got=%r %s' % (
       rec['k'], rec.get('d', 'sqlite'), rec['pos'], rec['ctx'], why, s,
       rec.get('got', '')[:80], detail[:160])
@@ -297,9 +298,12 @@ def Run(tier):
 
   # strings
   byid = {r['id']: r for r in srecs}
+  unit_bad = frozenset(
+      (byid[rid]['s'], b['d']) for rid, v in sbad.items()
+      if byid[rid]['k'] == 'unit' for b in v['bad'] if b['via'] == 'lit')
   for rid, v in sorted(sbad.items()):
     rec = byid[rid]
-    for sig, text in _StringSignatures(rec, v):
+    for sig, text in _StringSignatures(rec, v, unit_bad):
       if not klass.Match(sig):
         violations.append((sig, text, {'kind': rec['k'], 'record': {
             a: b for a, b in rec.items() if a not in ('ref', 'sql')},
@@ -477,13 +481,16 @@ def Replay(path):
       recs = strlit._PipeTask((rec['pos'], rec['ctx'], rec['form'], [s]))
     else:
       recs = strlit._SqlTask((rec['d'], rec['pos'], rec['ctx'], rec['form'],
-                              [s]))
+                              [s])) + strlit._UnitChunk([s])
     bad, _, errors, _ = strlit.Validate(recs, 'c10replay_%d' % os.getpid(),
                                            nshards=1)
+    unit_bad = frozenset((r['s'], b['d']) for r in recs
+                         if r['k'] == 'unit' and r['id'] in bad
+                         for b in bad[r['id']]['bad'] if b['via'] == 'lit')
     out = []
     for r in recs:
-      if r['id'] in bad:
-        out += _StringSignatures(r, bad[r['id']])
+      if r['id'] in bad and r['k'] == kind:
+        out += _StringSignatures(r, bad[r['id']], unit_bad)
   if errors:
     print('MACHINERY-FAILURE property=%s %s' % (PROP, errors[0][2][-1500:]))
     return 2
